@@ -72,6 +72,8 @@ type MergeCompactionIterator struct {
 	reduce  func([]byte, [][]byte, []int) ([]byte, []byte)
 	pq      pq.PriorityQueueI[[]byte, []byte, int]
 	prevKey []byte
+	// hasPrev tells whether prevKey was set at all, the empty key is a valid key and reads back as nil
+	hasPrev bool
 	valBuf  [][]byte
 	ctxBuf  []int
 }
@@ -83,7 +85,7 @@ func (m *MergeCompactionIterator) Next() ([]byte, []byte, error) {
 			if errors.Is(err, pq.Done) {
 				if len(m.valBuf) > 0 {
 					kReduced, vReduced := m.reduce(m.prevKey, m.valBuf, m.ctxBuf)
-					if kReduced != nil && vReduced != nil {
+					if vReduced != nil {
 						// clear the buffer, so we don't infinite loop on the last elements
 						m.valBuf = m.valBuf[:0]
 						return kReduced, vReduced, nil
@@ -97,9 +99,9 @@ func (m *MergeCompactionIterator) Next() ([]byte, []byte, error) {
 
 		var toReturnKey, toReturnVal []byte
 		//we have to accumulate the whole sequence
-		if m.prevKey != nil && m.comp.Compare(k, m.prevKey) != 0 {
+		if m.hasPrev && m.comp.Compare(k, m.prevKey) != 0 {
 			kReduced, vReduced := m.reduce(m.prevKey, m.valBuf, m.ctxBuf)
-			if kReduced != nil && vReduced != nil {
+			if vReduced != nil {
 				toReturnKey = kReduced
 				toReturnVal = vReduced
 			}
@@ -108,10 +110,11 @@ func (m *MergeCompactionIterator) Next() ([]byte, []byte, error) {
 		}
 
 		m.prevKey = k
+		m.hasPrev = true
 		m.valBuf = append(m.valBuf, v)
 		m.ctxBuf = append(m.ctxBuf, c)
 
-		if toReturnKey != nil && toReturnVal != nil {
+		if toReturnVal != nil {
 			return toReturnKey, toReturnVal, nil
 		}
 	}
